@@ -385,15 +385,34 @@ def r20g(ctx, mname, path, tree, local):
             return (isinstance(v, ast.Call) and isinstance(v.func, ast.Attribute) and isinstance(v.func.value, ast.Name) and v.func.value.id in np_aliases
                     and v.func.attr in ARRAY_MAKERS)
         arrays = {x for x, vs in assigned.items() if vs and all(is_array_call(v) for v in vs)}
+        sites = []          # (name node of an attribute access, certainly an ndarray there)
         for n in ast.walk(fn):
             if isinstance(n, ast.Attribute) and isinstance(n.value, ast.Name) and n.value.id in arrays and isinstance(n.ctx, ast.Load):
-                k, err, dep, obj = resolve("numpy", ["ndarray", n.attr])
-                construct = f"{path}:numpy.ndarray.{n.attr}"
-                if err:
-                    ctx.bad("R20g", construct, "attribute of a numpy array exists in the installed numpy", f"`{n.value.id}.{n.attr}` in {fn.name}: {n.value.id} is always the result of a numpy "
-                            f"array constructor; {err}", key_detail="unresolved ndarray attribute", loc=f"{path}:{n.lineno}")
-                else:
-                    ctx.ok("R20g", construct, "attribute of a numpy array exists in the installed numpy", loc=f"{path}:{n.lineno}")
+                sites.append(n)
+        # locally: between `x = np.maker(...)` and the next statement of the same list that rebinds x, x is an ndarray
+        for holder in ast.walk(fn):
+            for field in ("body", "orelse", "finalbody"):
+                seq = getattr(holder, field, None)
+                if not (isinstance(seq, list) and seq and isinstance(seq[0], ast.stmt)):
+                    continue
+                for i, st in enumerate(seq):
+                    if isinstance(st, ast.Assign) and len(st.targets) == 1 and isinstance(st.targets[0], ast.Name) and is_array_call(st.value):
+                        x = st.targets[0].id
+                        for later in seq[i + 1:]:
+                            rebinds = any(isinstance(m, ast.Name) and m.id == x and isinstance(m.ctx, (ast.Store, ast.Del)) for m in ast.walk(later))
+                            if rebinds:
+                                break
+                            for m in ast.walk(later):
+                                if isinstance(m, ast.Attribute) and isinstance(m.value, ast.Name) and m.value.id == x and isinstance(m.ctx, ast.Load) and m not in sites:
+                                    sites.append(m)
+        for n in sites:
+            k, err, dep, obj = resolve("numpy", ["ndarray", n.attr])
+            construct = f"{path}:numpy.ndarray.{n.attr}"
+            if err:
+                ctx.bad("R20g", construct, "attribute of a numpy array exists in the installed numpy", f"`{n.value.id}.{n.attr}` in {fn.name}: {n.value.id} is the result of a numpy "
+                        f"array constructor there; {err}", key_detail="unresolved ndarray attribute", loc=f"{path}:{n.lineno}")
+            else:
+                ctx.ok("R20g", construct, "attribute of a numpy array exists in the installed numpy", loc=f"{path}:{n.lineno}")
 
 
 def r20h(ctx, mname, path, tree):
